@@ -82,6 +82,9 @@ def generate(targets, prop):
                 if it is not None:
                     fr.inlined = sorted(it.stats["inlined"])
                     fr.assumed_used = sorted(getattr(q, "assumed", []))
+                und = getattr(q, "undecided", None)
+                if und:
+                    fr.error = "sub-cases outside the deductive subset: " + "; ".join(f"{l}: {r}" for l, r in und[:6])
                 fns = getattr(q, "functions", None)
                 if fns:
                     fr.hash = ",".join(f"{qq}:{src.source_hash(rp, qq)}" for rp, qq in fns)
@@ -167,7 +170,14 @@ def run_bounded(check, tier, seed):
         return {"evaluations": 1, "distinct_nontrivial": 1, "rule": "native part crashed", "samples": [],
                 "violations": [{"case_key": "native:crash", "problem": f"the real code (compiled accessors / kernels) crashed the "
                                 f"interpreter with signal {r['signal']} while the bounded native part was running", "stderr": r["stderr"]}]}
-    raise RuntimeError("bounded part failed:\n" + r)
+    # an exception escaping the bounded part: on the unchanged tree this never happens (it would be a checker fault there and is
+    # fixed in the harness); after a change to /repo it is the real code failing in a way the harness did not anticipate
+    last = [l for l in r.strip().split("\n") if l.strip()][-1] if r.strip() else "unknown error"
+    in_repo = "/xobjects/" in r
+    if not in_repo:
+        raise RuntimeError("bounded part failed:\n" + r)
+    return {"evaluations": 1, "distinct_nontrivial": 1, "rule": "native part aborted by an exception raised inside xobjects", "samples": [],
+            "violations": [{"case_key": "native:exception:" + last.split(":")[0][:40], "problem": last[:300], "traceback": r[-1500:]}]}
 
 
 def sanitize(name):
